@@ -170,6 +170,7 @@ func runSeqCase(r *hx.Run, sub uint64, ops []string) {
 	r.Case(sub)
 	w := &seqWorld{}
 	var xw *xWorld
+	var sw *sxWorld
 	delivered, subs := 0, 0
 	var rerun []string
 	for i := 0; i < len(ops); i++ {
@@ -201,6 +202,27 @@ func runSeqCase(r *hx.Run, sub uint64, ops []string) {
 		if len(f) > 0 && f[0] == "newvarx" {
 			xw = &xWorld{v: reactive.NewVariable[int]()}
 			r.Line(op, "ok")
+
+			continue
+		}
+		if len(f) == 2 && f[0] == "newsetx" {
+			sw = &sxWorld{s: reactive.NewSet[int](parseInts(f[1])...)}
+			r.Line(op, "ok")
+
+			continue
+		}
+		if sw != nil {
+			ans := sw.exec(r, op)
+			r.Line(op, ans)
+			if len(f) > 0 {
+				r.Count("op:setx:" + f[0])
+			}
+			if i := strings.Index(ans, " | "); i >= 0 && len(f) > 0 && f[0] != "state" {
+				n := len(strings.Fields(ans[i+3:]))
+				delivered += n
+				r.CountN("setx:variant-events", n)
+				subs++
+			}
 
 			continue
 		}
@@ -260,6 +282,9 @@ var seqCorpus = [][]string{
 		"toggle 1", "reset", "unsub 0", "unsub 2", "state"},
 	{"newvarx", "init 3", "once 0", "once 2", "nonempty", "withvalue 1", "ctx 0", "defaultto 2", "set 0", "defaultto 2", "compute 1",
 		"unsub 3", "unsub 3", "unsub 4", "set 4", "state"},
+	// WithElements: condition, setup returning nil, element added and deleted by one Apply, second unsubscribe call
+	{"newsetx 1,2", "withelements 0 0", "withelements 1 1", "add 3", "apply 4,5 4", "withelements 2 2", "replace 2,3,5", "del 2", "unsub 1",
+		"unsub 1", "toggle 1", "compute 0,2 1", "unsub 0", "add 4", "state"},
 	// DESIGN.md section 7: Replace({2,3}) on {1,2} with a folding subscriber
 	{"newset 1,2", "sub 0", "replace 2,3", "state"},
 	// 2^32-1 calls without effect between two changes: the id of the second change must still differ from the first
@@ -314,6 +339,10 @@ func main() {
 		if i%4 == 0 {
 			rng, sub := r.Rng.Fork()
 			runSeqCase(r, sub, genSeqxCase(rng, 30))
+		}
+		if i%4 == 2 {
+			rng, sub := r.Rng.Fork()
+			runSeqCase(r, sub, genSeqsCase(rng, 26))
 		}
 	}
 	r.Finish()
